@@ -4,7 +4,7 @@ from pyvc.verify import Post, Case, Equiv, NativeFacts
 from contracts import common, C03, C04, C07, C08, C13, C15, C16, C17, write_scan
 
 PROPERTY = 'C06'
-REF_MODULES = ['ref_core', 'ref_auto', 'ref_t', 'ref_match', 'ref_reduce', 'ref_registry', 'ref_stream', 'h_path', 'ref_extra']
+REF_MODULES = ['ref_core', 'ref_auto', 'ref_t', 'ref_match', 'ref_reduce', 'ref_registry', 'ref_stream', 'h_path', 'ref_extra', 'h_ops']
 HERE = os.path.dirname(os.path.abspath(__file__))
 
 
@@ -63,6 +63,10 @@ def contracts():
     cs += _with(C17, ('streaming.Iter._add_op', 'core.Invoke.specs', 'core.Invoke.constants', 'core.Invoke.star'))
     from contracts import extra
     cs += common.shared(extra, ['core.Path.from_text'])
+    # aggregation steps never adopt a caller-owned object as their accumulator (C16), wrapper classes are built per call (C04)
+    pass
+    cs += _with(C16, ('reduction.Fold._agg', 'reduction.Merge._agg', 'LEMMA C16.agg'))
+    cs += _with(C04, ('core.GlomError.wrap',))
     return cs
 
 
